@@ -23,7 +23,8 @@ TAG(v) == [k |-> "tag", v |-> v]
 IsWsChar(c) == c = 32 \/ c = 9
 IsWs(chars) == \A i \in DOMAIN chars : IsWsChar(chars[i])         \* also true for the empty text
 IsTextual(it) == it.k = "t" \/ it.k = "nl"
-IsControl(it) == it.k = "tag" \/ it.k = "bs"
+\* "commit": a line end that can no longer be taken back (see InkSem!ExtCall): nothing is trimmed across it
+IsControl(it) == it.k = "tag" \/ it.k = "bs" \/ it.k = "commit"
 NonWs(it) == it.k = "t" /\ ~IsWs(it.v)
 
 Last(seq) == seq[Len(seq)]
@@ -44,7 +45,7 @@ ContainsContent(out) == \E i \in DOMAIN out : IsTextual(out[i])
 \* The engine keeps one stream per LINE: a newline followed by real text or a tag ends the line, and the next line
 \* starts on an empty stream.  The semantics keeps one stream per turn; the part of it that the engine's rules look
 \* at is the current line: everything after the last newline that has been followed by real text or a tag.
-IsContent(it) == NonWs(it) \/ it.k = "tag"
+IsContent(it) == NonWs(it) \/ it.k = "tag" \/ it.k = "commit"
 LastContent(out) == IF \E i \in DOMAIN out : IsContent(out[i]) THEN CHOOSE i \in DOMAIN out : IsContent(out[i]) /\ \A j \in DOMAIN out : IsContent(out[j]) => j <= i ELSE 0
 CurrentLine(out) ==
   LET c == LastContent(out)
